@@ -19,7 +19,8 @@ EXPLANATION = (
     "object held in a self attribute other than their own cache entry (alias/effect analysis: e.g. accumulating a result in place into a "
     "per-SCC index would corrupt later answers), and no in-package caller mutates a set returned by a substrate query (cached sets are "
     "returned by reference); (R3) the augmented graphs are frozen as the last step of construction and no graph mutator is called on them "
-    "afterwards; the width caches are keyed by 'nothing ignored' (C09.R5).  NOT decided: that the answers equal a direct graph search, "
+    "afterwards; the width caches are keyed by 'nothing ignored' (C09.R5); (R4) the four reachability tables of stDAG are dynamic programs whose neighbour direction (successors for 'from', predecessors for 'reaching'), "
+    "processing order (every neighbour final before it is read), seed (a node reaches itself; an edge table starts empty) and edge orientation agree with the query they answer, and the per-node queries of stDiGraph use descendants / ancestors of the condensation united with the node's own SCC.  NOT decided: that the answers equal a direct graph search, "
     "antichain maximality, peeling arithmetic."
 )
 DECIDED = ["caches are written only by their owner, keyed by the query", "queries have no side effect on shared substrate state; cached results are never mutated",
@@ -199,6 +200,125 @@ def frozen_rule(prog: Program, rep, RID: str):
     rep.ok(RID, "no-mutator-after-freeze", "no graph mutator is called on self outside constructors/builders of the substrate classes", "")
 
 
+DP_TABLE = {
+    # property: (direction, cache attr, seed includes the node itself, contributes edges)
+    "reachable_nodes_from": ("forward", "_reachable_nodes_from", True, False),
+    "reachable_edges_from": ("forward", "_reachable_edges_from", False, True),
+    "nodes_reaching": ("backward", "_nodes_reaching", True, False),
+    "reachable_edges_rev_from": ("backward", "_reachable_edges_rev_from", False, True),
+}
+
+
+def dp_direction(prog: Program, rep, RID: str):
+    """The four reachability tables of stDAG are dynamic programs over the topological order: R[x] = seed(x) U union of R[y] (and
+    the edge x-y) over the neighbours y in the direction of the query.  Necessary for correctness: neighbours are *successors* for
+    'from' queries and *predecessors* for 'reaching' queries, x ranges over an order in which every such neighbour precedes x
+    (reverse topological for successors, topological for predecessors), the seed contains x itself for node tables, and the edge
+    contributed is oriented as it is in the graph."""
+    cls = prog.cls("stDAG")
+    post = prog.own_method("stDAG", "_post_build")
+    # order providers
+    src = {norm(s.targets[0]): norm(s.value) for s in ast.walk(post.node) if isinstance(s, ast.Assign) and len(s.targets) == 1}
+    key = "stDAG._post_build:orders"
+    fwd_ok = src.get("self.topological_order") in ("list(nx.topological_sort(self))",)
+    rev_ok = src.get("self.topological_order_rev") in ("list(reversed(self.topological_order))", "self.topological_order[::-1]")
+    if fwd_ok and rev_ok:
+        rep.ok(RID, key, "topological_order = topological sort of self; topological_order_rev = its reversal", post.loc())
+    elif "self.topological_order" not in src or "self.topological_order_rev" not in src:
+        raise AnalysisError("stDAG._post_build: providers of topological_order / topological_order_rev not found")
+    else:
+        rep.violation(RID, key, f"topological_order = {src.get('self.topological_order')}, topological_order_rev = {src.get('self.topological_order_rev')}: "
+                      "the DP tables need a topological order and its exact reversal", post.loc())
+    for pname, (direction, attr, seed_self, edges) in DP_TABLE.items():
+        f = cls.methods.get(pname)
+        if f is None:
+            raise AnalysisError(f"stDAG.{pname} vanished")
+        key = f"stDAG.{pname}"
+        guard = [n for n in f.node.body if isinstance(n, ast.If) and norm(n.test) == f"self.{attr} is None"]
+        if len(guard) != 1:
+            raise AnalysisError(f"stDAG.{pname}: lazy-initialisation guard `self.{attr} is None` not found")
+        body = guard[0].body
+        init = [s for s in body if isinstance(s, ast.Assign) and norm(s.targets[0]) == f"self.{attr}"]
+        loops = [s for s in body if isinstance(s, ast.For)]
+        if len(init) != 1 or len(loops) != 1 or not isinstance(init[0].value, ast.DictComp):
+            raise AnalysisError(f"stDAG.{pname}: DP idiom (dict-comprehension seed + one loop nest) not recognised")
+        dc = init[0].value
+        kv = norm(dc.key)
+        seed = norm(dc.value)
+        want_seed = "{%s}" % kv if seed_self else "set()"
+        if seed == want_seed and norm(dc.generators[0].iter) in ("self.nodes()", "self.nodes", "self") and not dc.generators[0].ifs:
+            rep.ok(RID, key + ":seed", f"every node starts with {want_seed}", f.loc(init[0]))
+        elif seed in ("set()", "{%s}" % kv):
+            rep.violation(RID, key + ":seed", f"seed is `{seed}` but a {'node' if seed_self else 'edge'} table must start from `{want_seed}` "
+                          f"({'every node reaches itself' if seed_self else 'a node is not an edge'})", f.loc(init[0]))
+        else:
+            raise AnalysisError(f"stDAG.{pname}: seed `{norm(dc)}` not recognised")
+        outer = loops[0]
+        inner = [s for s in outer.body if isinstance(s, ast.For)]
+        if len(inner) != 1 or not isinstance(outer.target, ast.Name) or not isinstance(inner[0].target, ast.Name):
+            raise AnalysisError(f"stDAG.{pname}: loop nest not recognised")
+        X, Y = outer.target.id, inner[0].target.id
+        order = norm(outer.iter)
+        nb = norm(inner[0].iter)
+        want_nb = f"self.{'successors' if direction == 'forward' else 'predecessors'}({X})"
+        want_order = "self.topological_order_rev" if direction == "forward" else "self.topological_order"
+        other_nb = f"self.{'predecessors' if direction == 'forward' else 'successors'}({X})"
+        if nb == want_nb:
+            rep.ok(RID, key + ":neighbours", f"{direction} query unions over `{nb}`", f.loc(inner[0]))
+        elif nb == other_nb:
+            rep.violation(RID, key + ":neighbours", f"a {direction} reachability table unions over `{nb}`: it answers the opposite query", f.loc(inner[0]))
+        else:
+            raise AnalysisError(f"stDAG.{pname}: neighbour iteration `{nb}` not recognised")
+        dep_first = {"self.successors(%s)" % X: "self.topological_order_rev", "self.predecessors(%s)" % X: "self.topological_order"}.get(nb)
+        if order == dep_first:
+            rep.ok(RID, key + ":order", f"`{order}`: every neighbour's entry is final before it is read", f.loc(outer))
+        elif order in ("self.topological_order_rev", "self.topological_order"):
+            rep.violation(RID, key + ":order", f"nodes are processed in `{order}` while the recurrence reads the entries of `{nb}`: those entries are "
+                          "still incomplete when they are read, so the table misses every node/edge more than one step away", f.loc(outer))
+        else:
+            raise AnalysisError(f"stDAG.{pname}: processing order `{order}` not recognised")
+        upd = [s for s in inner[0].body if isinstance(s, ast.AugAssign) and isinstance(s.op, ast.BitOr) and norm(s.target) == f"self.{attr}[{X}]"]
+        others = [s for s in inner[0].body if s not in upd]
+        vals = [norm(s.value) for s in upd]
+        want_rec = f"self.{attr}[{Y}]"
+        if want_rec in vals and not others:
+            rep.ok(RID, key + ":recurrence", f"R[{X}] |= R[{Y}] for every neighbour", f.loc(inner[0]))
+        else:
+            rep.violation(RID, key + ":recurrence", f"the union `self.{attr}[{X}] |= {want_rec}` over every neighbour is missing or conditional "
+                          f"(updates: {vals})", f.loc(inner[0]))
+        if edges:
+            want_edge = "{(%s, %s)}" % ((X, Y) if direction == "forward" else (Y, X))
+            flipped = "{(%s, %s)}" % ((Y, X) if direction == "forward" else (X, Y))
+            if want_edge in vals:
+                rep.ok(RID, key + ":edge", f"contributes the graph edge {want_edge}", f.loc(inner[0]))
+            elif flipped in vals:
+                rep.violation(RID, key + ":edge", f"contributes {flipped}, which is not an edge of the graph (orientation reversed): membership "
+                              "tests of real edges in the table fail", f.loc(inner[0]))
+            else:
+                rep.violation(RID, key + ":edge", f"the edge between `{X}` and its neighbour is not added to the table (updates: {vals})", f.loc(inner[0]))
+        elif len(vals) != 1:
+            rep.violation(RID, key + ":recurrence-extra", f"unexpected extra contributions {vals} to a node table", f.loc(inner[0]))
+    # stDiGraph per-node queries: descendants for 'reachable', ancestors for 'reaching', own SCC included
+    for m, prim in (("nodes_reachable", "nx.descendants"), ("nodes_reaching", "nx.ancestors")):
+        f = prog.own_method("stDiGraph", m)
+        key = f"stDiGraph.{m}:primitive"
+        prims = [c for c in calls_in(f.node) if dotted(c.func) in ("nx.descendants", "nx.ancestors")]
+        if len(prims) != 1:
+            raise AnalysisError(f"stDiGraph.{m}: expected one networkx reachability primitive, found {len(prims)}")
+        c = prims[0]
+        par = [n for n in ast.walk(f.node) if isinstance(n, ast.BinOp) and isinstance(n.op, ast.BitOr) and any(x is c for x in ast.walk(n))]
+        arg = norm(c.args[1]) if len(c.args) > 1 else ""
+        self_incl = any(norm(p.right) == "{%s}" % arg or norm(p.left) == "{%s}" % arg for p in par)
+        if dotted(c.func) == prim and self_incl and norm(c.args[0]) in ("C", "self._condensation"):
+            rep.ok(RID, key, f"{prim} on the condensation, united with the node's own SCC", f.loc(c))
+        elif dotted(c.func) != prim:
+            rep.violation(RID, key, f"`{m}` is computed with {dotted(c.func)}: it answers the opposite query", f.loc(c))
+        elif not self_incl:
+            rep.violation(RID, key, f"the SCC of the query node itself is not included (`| {{{arg}}}` missing): the node and its SCC are reported unreachable from themselves", f.loc(c))
+        else:
+            raise AnalysisError(f"stDiGraph.{m}: primitive applied to `{norm(c.args[0])}` - not the condensation")
+
+
 def check(prog: Program, rep):
     am = AliasModel(prog)
     rep.rule("C17.R1", "cache ownership", floor=9)
@@ -209,6 +329,8 @@ def check(prog: Program, rep):
     query_purity(prog, rep, "C17.R2", am)
     rep.rule("C17.R3", "frozen substrate", floor=3)
     frozen_rule(prog, rep, "C17.R3")
+    rep.rule("C17.R4", "reachability tables: direction, processing order, seed and edge orientation agree with the query", floor=16)
+    dp_direction(prog, rep, "C17.R4")
     from rules.c09 import width_cache
     rep.rule("C17.R3b", "width cache key", floor=4)
     width_cache(prog, rep, "C17.R3b")
